@@ -126,11 +126,17 @@ fn optimize_while_statement_with_all_loop_optimizations(
     optimized_while_statement,
     non_loop_invariant_variables,
   } = loop_invariant_code_motion::optimize(while_stmt);
+  #[cfg(samlang_verif)]
+  if !final_stmts.is_empty() {
+    crate::verif_hooks::note("loop_invariant_code_motion");
+  }
   match extract_optimizable_while_loop(optimized_while_statement, &non_loop_invariant_variables) {
     Ok(mut optimizable_while_loop) => {
       if let Some(mut stmts) =
         loop_algebraic_optimization::optimize(&optimizable_while_loop, counter)
       {
+        #[cfg(samlang_verif)]
+        crate::verif_hooks::note("loop_algebraic_optimization");
         final_stmts.append(&mut stmts);
         return final_stmts;
       }
@@ -141,6 +147,8 @@ fn optimize_while_statement_with_all_loop_optimizations(
         new_derived_induction_variables,
       }) = loop_induction_variable_elimination::optimize(&optimizable_while_loop, counter)
       {
+        #[cfg(samlang_verif)]
+        crate::verif_hooks::note("loop_induction_variable_elimination");
         final_stmts.append(&mut prefix_statements);
         optimizable_while_loop.basic_induction_variable_with_loop_guard =
           new_basic_induction_variable_with_loop_guard;
@@ -159,6 +167,10 @@ fn optimize_while_statement_with_all_loop_optimizations(
             break_collector,
           },
       } = loop_strength_reduction::optimize(optimizable_while_loop, counter);
+      #[cfg(samlang_verif)]
+      if !prefix_statements.is_empty() {
+        crate::verif_hooks::note("loop_strength_reduction");
+      }
       final_stmts.append(&mut prefix_statements);
 
       let already_handled_induction_variable_names =
